@@ -57,8 +57,15 @@ pub fn random_alpha_vec(rng: &mut Rng, d1: usize) -> Vec<f64> {
         // fix the last entry so that the f64 sum is as close to one as possible
         let head: f64 = a[..d1 - 1].iter().sum();
         a[d1 - 1] = 1.0 - head;
+        // half of the vectors sit at the edge of what the constructor accepts: one exponent is nudged by an ulp
+        // or two so that the f64 sum is off one by a few 1e-16 (still inside |1-sum| < eps*d1/2)
+        if rng.bool(0.5) {
+            let k = rng.usize(0, d1 - 1);
+            let nudge = *rng.choose(&[1.0, -1.0, 2.0, -2.0]) * f64::EPSILON * 0.5;
+            a[k] += nudge;
+        }
         let sum: f64 = a.iter().sum();
-        if a[d1 - 1] > 0.05 && (1.0 - sum).abs() < f64::EPSILON * d1 as f64 * 0.5 {
+        if a[d1 - 1] > 0.05 && a.iter().all(|v| *v > 0.0) && (1.0 - sum).abs() < f64::EPSILON * d1 as f64 * 0.5 {
             return a;
         }
     }
